@@ -8,6 +8,7 @@ mod eng_pages;
 mod wprog;
 mod scene;
 mod eng_writer;
+mod eng_reader;
 
 use util::Sink;
 
@@ -16,6 +17,7 @@ fn exec_line(engine: &str, line: &str) -> String {
         "bits" => eng_bits::exec(line),
         "pages" => eng_pages::exec(line),
         "writer" => eng_writer::exec(line),
+        "reader" => eng_reader::exec(line),
         _ => "BADENGINE".into(),
     }
 }
@@ -40,6 +42,7 @@ fn main() {
                 "bits" => eng_bits::generate(&mut sink, seed, thorough),
                 "pages" => eng_pages::generate(&mut sink, seed, thorough),
                 "writer" => eng_writer::generate(&mut sink, seed, thorough),
+                "reader" => eng_reader::generate(&mut sink, seed, thorough),
                 _ => {
                     eprintln!("unknown engine {engine}");
                     std::process::exit(2);
